@@ -177,12 +177,14 @@ theorem C10_fresh_ids (p : Params) (hr : Repaired p) (src : Nat → Nat) (hinj :
 /-! ### a failed session is not offered again -/
 
 /-- **Failed sessions are not offered again.** Over any history (any length) in which the harness
-does not itself copy sessions between destinations, no connection offers the session that was in
-use (named by the ServerHello) in an earlier connection whose handshake ended in an error at
-the client — whether that was a resumption attempt (the loaded session is deleted by the
-deferred cleanup) or a full handshake that failed at the server's Finished (the new session is
-never stored: this is where the call order `readFinished` before `createNewSession` is used,
-F16). -/
+does not itself copy sessions between destinations, no connection offers a session that an earlier
+connection whose handshake ended in an error at the client had OFFERED (whether or not the
+server accepted it: the deferred cleanup deletes the loaded session on any error, its guard
+`session != nil && err != nil` is pinned in `C10_facts` and does not depend on `didResume`) or
+had IN USE (named by the ServerHello: a resumption attempt, or a full handshake that failed at
+the server's Finished — the new session is never stored: this is where the call order
+`readFinished` before `createNewSession` is used, F16). `NotReoffered a b` reads: if `a` failed
+at the client, `b` offers neither what `a` offered nor what `a`'s ServerHello named. -/
 theorem C10_failed_not_reoffered (p : Params) (hr : Repaired p) (src : Nat → Nat) (hinj : Function.Injective src)
     (d : Nat) (ccap scap : Int) (h : List Conn) (hs : ∀ c ∈ h, noStaleConn c) :
     (run p src (Resumption.init d ccap scap) h).2.Pairwise NotReoffered :=
